@@ -304,9 +304,27 @@ def check_truncate(ctx, repo, cls):
                     src = access_path(v.args[0])
                     key = [k.value for k in v.keywords if k.arg == "key"]
                     rev = [k.value for k in v.keywords if k.arg == "reverse"]
-                    keyok = key and isinstance(key[0], ast.Lambda) and text(key[0].body) == "%s.features[%s]" % (key[0].args.args[0].arg, getter)
-                    if src != content or not keyok:
+                    keyok = None
+                    kf = key[0] if key else None
+                    if isinstance(kf, ast.Name):
+                        # a local function used as key: its single returned expression
+                        for nd_ in ast.walk(fn):
+                            if isinstance(nd_, ast.FunctionDef) and nd_ is not fn and nd_.name == kf.id and len(nd_.body) == 1 \
+                                    and isinstance(nd_.body[0], ast.Return) and len(nd_.args.args) == 1:
+                                kf = ast.Lambda(args=nd_.args, body=nd_.body[0].value)
+                    if isinstance(kf, ast.Lambda) and len(kf.args.args) == 1:
+                        kb = text(kf.body)
+                        arg0 = kf.args.args[0].arg
+                        if kb == "%s.features[%s]" % (arg0, getter):
+                            keyok = True
+                        elif kb.startswith(arg0 + "."):
+                            keyok = False
+                    elif kf is None:
+                        keyok = False
+                    if src != content or keyok is False:
                         bad = bad or (s, "the members are not sorted by the chosen feature (%s)" % text(v))
+                    elif keyok is None:
+                        bad = bad or (s, "slice/order: sort key %s not understood" % text(kf))
                     o = "ASC"
                     if rev:
                         if is_const(rev[0]):
@@ -316,6 +334,19 @@ def check_truncate(ctx, repo, cls):
                         else:
                             o = "?"
                     order[t] = o
+                elif isinstance(v, ast.Name) and v.id in order and t != content:
+                    order[t] = order[v.id]                      # another name for the same list
+                elif isinstance(v, ast.Subscript) and isinstance(v.slice, ast.Slice) and access_path(v.value) in order and t != content \
+                        and v.slice.lower is None and v.slice.upper is None and v.slice.step is not None and is_const(v.slice.step) and const_value(v.slice.step) == -1:
+                    order[t] = {"ASC": "DESC", "DESC": "ASC"}.get(order[access_path(v.value)], "?")     # xs[::-1]
+                elif isinstance(v, ast.Call) and access_path(v.func) in ("list", "reversed") and v.args and t != content:
+                    inner = v.args[0]
+                    flip = access_path(v.func) == "reversed"
+                    if isinstance(inner, ast.Call) and access_path(inner.func) == "reversed" and inner.args:
+                        inner, flip = inner.args[0], not flip
+                    if access_path(inner) in order:
+                        o_ = order[access_path(inner)]
+                        order[t] = {"ASC": "DESC", "DESC": "ASC"}.get(o_, "?") if flip else o_
                 elif isinstance(v, ast.Subscript) and isinstance(v.slice, ast.Slice) and access_path(v.value) in order and t == content:
                     sl = v.slice
                     o = order[access_path(v.value)]
